@@ -448,7 +448,27 @@ def family_renames():
     yield [fn("p", ["x"], ["q"]), sub("B", [sub("D", [fn("f", ["q"], ["m"])], rin={"q": "x"}), fn("h", ["q"], ["n"])])], "renames/same-name-in-renamed-scope"
 
 
-FAMILIES = [family_consumers, family_producers, family_control, family_ordering, family_inputs, family_renames]
+def family_names():
+    """Names that contain one another: a container and a sibling whose name merely STARTS with the
+    container's name (hierarchical ids are "A/h": "Ab" is not inside "A"), both consuming one value."""
+    yield [fn("p", ["x"], ["a"]), sub("A", [fn("h", ["a"], ["b"])]), fn("Ab", ["a"], ["c"])], "names/prefix-sibling-fn"
+    yield [fn("p", ["x"], ["a"]), fn("A_s", ["a"], ["c"]), sub("A", [fn("h", ["a", "y"], ["b"])]), fn("q", ["b", "c"], ["t"])], "names/prefix-sibling-first"
+    yield [fn("p", ["x"], ["a"]), sub("g1", [fn("h", ["a"], ["b"])]), sub("g10", [fn("i", ["a"], ["c"])])], "names/prefix-sibling-container"
+    yield [fn("p", ["x"], ["a"]), sub("A", [sub("B", [fn("h", ["a"], ["b"])]), fn("Bx", ["a", "b"], ["c"])]), fn("q", ["c"], ["t"])], "names/prefix-nested"
+    yield [sub("A", [fn("h", ["x"], ["a"])]), fn("A2", ["x", "a"], ["c"])], "names/prefix-input"
+
+
+def family_siblings():
+    """A nested graph feeding a SIBLING nested graph (no leaf function at the outer level reads the
+    value), with and without a renamed wrapper input / output."""
+    yield [sub("A", [fn("h", ["x"], ["a"])]), sub("B", [fn("i", ["w"], ["b"])], rin={"w": "a"})], "siblings/renamed-input"
+    yield [sub("A", [fn("h", ["x"], ["a"])], rout={"a": "v"}), sub("B", [fn("i", ["v"], ["b"])])], "siblings/renamed-output"
+    yield [sub("A", [fn("h", ["x"], ["a"])]), sub("B", [fn("i", ["w", "y"], ["b"]), fn("j", ["b", "w"], ["c"])], rin={"w": "a"}),
+           fn("q", ["c"], ["t"])], "siblings/renamed-input-two-consumers"
+    yield [sub("A", [fn("h", ["x"], ["a", "a2"])]), sub("B", [fn("i", ["a"], ["b"])]), sub("C", [fn("j", ["w"], ["c"])], rin={"w": "a2"})], "siblings/fan-out"
+
+
+FAMILIES = [family_consumers, family_producers, family_control, family_ordering, family_inputs, family_renames, family_names, family_siblings]
 
 
 class RandomPrograms:
